@@ -644,7 +644,7 @@ def findwalks(CIJ):
     -----
     Wq grows very quickly for larger N,K,q. Weights are discarded.
     '''
-    CIJ = binarize(CIJ, copy=True)
+    CIJ = binarize(CIJ, copy=True).astype(float)  # count in float64 whatever the input dtype (bool: logical dot; small ints wrap)
     n = len(CIJ)
     Wq = np.zeros((n, n, n))
     CIJpwr = CIJ.copy()
